@@ -172,6 +172,7 @@ func c06Run(c c06Case) (fail *vlib.Failure, rs c06Stats) {
 
 	for i, op := range c.Ops {
 		when := fmt.Sprintf("op %d (%s)", i, op.Kind)
+		m.flushedLeaf = nil
 		m.flushed, m.allocs, m.failAt, m.failErr, m.handed, m.tempFail = nil, 0, 0, nil, nil, false
 		switch op.Kind {
 		case "zeroMap":
@@ -403,6 +404,9 @@ func c06Run(c c06Case) (fail *vlib.Failure, rs c06Stats) {
 			}
 			if !flushed {
 				return vlib.Failf("%s: the TLB entry of page %s was not invalidated after the copy-on-write fault", when, pg(page)), rs
+			}
+			if stale := m.staleAfterFlush(page); stale != "" {
+				return vlib.Failf("%s: page %s: %s", when, pg(page), stale), rs
 			}
 			sharers := 0
 			for _, a := range aliases {
